@@ -1,5 +1,10 @@
 //! KB1 — inflateBack (`inflate::back`) on a typed stream: never touches memory outside the caller's window and the
-//! slices handed out by the input callback, for every distance code (C19, C02).
+//! slices handed out by the input callback, for every distance code and every value of its extra bits (C19, C02).
+//!
+//! `back()` always restarts in `Type`, and CBMC keeps the decoder's modes concrete only along fully concrete input
+//! bytes (DESIGN.md §1).  Each instance therefore uses a concrete prefix that ends, byte aligned, right after the
+//! 5-bit distance code: final fixed block, NLIT nine-bit literals (0x90, 0x91, ...), the length-3 code, distance code D.
+//! The two bytes that follow are symbolic: every value of the (up to 13) extra bits, and whatever comes after.
 use super::*;
 
 pub(crate) struct InDesc {
@@ -24,7 +29,6 @@ pub(crate) unsafe extern "C" fn in_cb(desc: *mut core::ffi::c_void, buf: *mut *c
 pub(crate) struct OutDesc {
     pub total: u32,
     pub calls: u32,
-    pub abort_at: u32,
     pub last_ptr: usize,
     pub last_len: u32,
     pub data: [u8; 16],
@@ -42,36 +46,31 @@ pub(crate) unsafe extern "C" fn out_cb(desc: *mut core::ffi::c_void, buf: *mut u
         i += 1;
     }
     d.total += len;
-    if d.calls == d.abort_at {
-        1
-    } else {
-        0
-    }
+    0
 }
 
-/// Final fixed block: six 9-bit literals (0x90..), the length-3 code, byte aligned after 8 bytes; then 2 symbolic
-/// bytes carry the distance code and its extra bits: every distance 1..=32768 against a 256-byte window that holds
-/// 6 bytes.  Memory safety (window is a typed local: any access outside it is a CBMC pointer failure), status, and
-/// for in-window distances the bytes handed to `out`.
-#[kani::proof]
-#[kani::unwind(5)]
-#[kani::stub(crate::inflate::inftrees::inflate_table, stub_table_unreachable)]
-#[kani::stub(core::fmt::write, stub_fmt_write)]
-#[kani::stub(core::panicking::panic_nounwind, stub_pn)]
-#[kani::stub(core::panicking::panic_nounwind_fmt, stub_pnf)]
-#[kani::stub(crate::inflate::infback::inflate_fast_back, stub_fast_back_unreachable)]
-#[kani::stub(<[u16]>::fill, stub_fill_unreachable)]
-fn kb1_back_distance() {
+const DBASE: [u32; 30] = [1, 2, 3, 4, 5, 7, 9, 13, 17, 25, 33, 49, 65, 97, 129, 193, 257, 385, 513, 769, 1025, 1537, 2049, 3073, 4097, 6145, 8193, 12289, 16385, 24577];
+const DEXT: [u32; 30] = [0, 0, 0, 0, 1, 1, 2, 2, 3, 3, 4, 4, 5, 5, 6, 6, 7, 7, 8, 8, 9, 9, 10, 10, 11, 11, 12, 12, 13, 13];
+
+fn back_instance<const NP: usize, const NLIT: usize>(prefix: [u8; NP], dsym: usize) {
+    let mut input = [0u8; 16];
+    let mut k = 0;
+    while k < NP {
+        input[k] = prefix[k];
+        k += 1;
+    }
     let s0: u8 = kani::any();
     let s1: u8 = kani::any();
-    let input: [u8; 10] = [0x9b, 0x30, 0x61, 0xc2, 0x84, 0x09, 0x13, 0x80, s0, s1];
+    input[NP] = s0;
+    input[NP + 1] = s1;
+    let n_in = (NP + 2) as u32;
     let mut win = [0xEEu8; 256];
     let mut state = State::new(&[], Writer::new(&mut []));
     state.window = unsafe { Window::from_raw_parts(win.as_mut_ptr(), 256) };
     state.wbits = 8;
     state.flags.update(Flags::SANE, true);
-    let mut ind = InDesc { ptr: input.as_ptr(), len: 10, first: 10, calls: 0 };
-    let mut outd = OutDesc { total: 0, calls: 0, abort_at: 0, last_ptr: 0, last_len: 0, data: [0; 16] };
+    let mut ind = InDesc { ptr: input.as_ptr(), len: n_in, first: n_in, calls: 0 };
+    let mut outd = OutDesc { total: 0, calls: 0, last_ptr: 0, last_len: 0, data: [0; 16] };
     let mut strm = typed_stream(unsafe { &mut *(&mut state as *mut State) });
     let rc = unsafe {
         back(
@@ -85,41 +84,92 @@ fn kb1_back_distance() {
     core::mem::forget(strm);
     core::mem::forget(state);
     assert!(matches!(rc, ReturnCode::StreamEnd | ReturnCode::DataError | ReturnCode::BufError));
-    // reference: distance code = 5 bits MSB-first, then extra bits LSB-first
-    let v = s0 as u32 | (s1 as u32) << 8;
-    let dsym = ((v & 31) as u8).reverse_bits() >> 3;
-    const DBASE: [u32; 30] = [1, 2, 3, 4, 5, 7, 9, 13, 17, 25, 33, 49, 65, 97, 129, 193, 257, 385, 513, 769, 1025, 1537, 2049, 3073, 4097, 6145, 8193, 12289, 16385, 24577];
-    const DEXT: [u32; 30] = [0, 0, 0, 0, 1, 1, 2, 2, 3, 3, 4, 4, 5, 5, 6, 6, 7, 7, 8, 8, 9, 9, 10, 10, 11, 11, 12, 12, 13, 13];
     // everything given to `out` lies inside the caller's window
     if outd.calls > 0 {
         assert!(outd.last_ptr == win.as_ptr() as usize && outd.last_len <= 256);
     }
     if dsym >= 30 {
         assert!(rc == ReturnCode::DataError);
-    } else if DEXT[dsym as usize] <= 11 {
-        let dist = DBASE[dsym as usize] + ((v >> 5) & ((1 << DEXT[dsym as usize]) - 1));
-        if dist > 6 {
-            // reaches before the start of the data: rejected, the six literals are still delivered
+        assert!(outd.total as usize == NLIT);
+    } else {
+        let v = s0 as u32 | (s1 as u32) << 8;
+        let dist = (DBASE[dsym] + (v & ((1 << DEXT[dsym]) - 1))) as usize;
+        if dist > NLIT {
+            // reaches before the start of the data (and, for the large codes, beyond the window): rejected,
+            // the literals decoded so far are still delivered
             assert!(rc == ReturnCode::DataError);
-            assert!(outd.total == 6);
+            assert!(outd.total as usize == NLIT);
         } else {
-            // in-window stream: same bytes as inflate would produce (LZ77 semantics), then the input ends
-            assert!(outd.total == 9);
-            let lit = [0x90u8, 0x91, 0x92, 0x93, 0x94, 0x95];
+            // in-window stream: the bytes inflate would produce (LZ77 semantics)
+            assert!(outd.total as usize >= NLIT + 3);
             let mut i = 0;
-            while i < 9 {
-                let e = if i < 6 { lit[i] } else { outd.data[i - dist as usize] };
+            while i < NLIT + 3 {
+                let e = if i < NLIT { 0x90 + i as u8 } else { outd.data[i - dist] };
                 assert!(outd.data[i] == e);
                 i += 1;
             }
-            assert!(matches!(rc, ReturnCode::BufError | ReturnCode::StreamEnd | ReturnCode::DataError));
         }
     }
-    // the window's own bytes beyond what was produced are untouched
+    // the window's own bytes beyond what can have been produced are untouched (2 symbolic bytes decode to <= 2 more symbols)
     let k: usize = kani::any();
-    kani::assume(k >= 9 && k < 256);
+    kani::assume(k >= NLIT + 3 + 4 && k < 256);
     assert!(win[k] == 0xEE);
-    kani::cover!(dsym == 29, "largest distance code");
-    kani::cover!(dsym < 30 && rc == ReturnCode::DataError, "too-far distance rejected");
-    kani::cover!(outd.total == 9, "in-window match copied");
+    kani::cover!(rc == ReturnCode::DataError);
+    kani::cover!(dsym >= 30 || DBASE[dsym] as usize > NLIT || outd.total as usize >= NLIT + 3, "in-window match copied");
 }
+
+macro_rules! kb1_harness {
+    ($name:ident, $np:expr, $nlit:expr, $prefix:expr, $dsym:expr) => {
+        #[kani::proof]
+        #[kani::unwind(5)]
+        #[kani::stub(crate::inflate::inftrees::inflate_table, stub_table_unreachable)]
+        #[kani::stub(core::fmt::write, stub_fmt_write)]
+        #[kani::stub(core::panicking::panic_nounwind, stub_pn)]
+        #[kani::stub(core::panicking::panic_nounwind_fmt, stub_pnf)]
+        #[kani::stub(crate::inflate::infback::inflate_fast_back, stub_fast_back_unreachable)]
+        #[kani::stub(<[u16]>::fill, stub_fill_unreachable)]
+        fn $name() {
+            back_instance::<$np, $nlit>($prefix, $dsym);
+        }
+    };
+}
+kb1_harness!(kb1_back_lit1_d0, 3, 1, [0x9b, 0x00, 0x04], 0);
+kb1_harness!(kb1_back_lit1_d1, 3, 1, [0x9b, 0x00, 0x84], 1);
+kb1_harness!(kb1_back_lit1_d2, 3, 1, [0x9b, 0x00, 0x44], 2);
+kb1_harness!(kb1_back_lit1_d3, 3, 1, [0x9b, 0x00, 0xc4], 3);
+kb1_harness!(kb1_back_lit1_d4, 3, 1, [0x9b, 0x00, 0x24], 4);
+kb1_harness!(kb1_back_lit1_d5, 3, 1, [0x9b, 0x00, 0xa4], 5);
+kb1_harness!(kb1_back_lit1_d6, 3, 1, [0x9b, 0x00, 0x64], 6);
+kb1_harness!(kb1_back_lit1_d7, 3, 1, [0x9b, 0x00, 0xe4], 7);
+kb1_harness!(kb1_back_lit1_d8, 3, 1, [0x9b, 0x00, 0x14], 8);
+kb1_harness!(kb1_back_lit1_d9, 3, 1, [0x9b, 0x00, 0x94], 9);
+kb1_harness!(kb1_back_lit1_d10, 3, 1, [0x9b, 0x00, 0x54], 10);
+kb1_harness!(kb1_back_lit1_d11, 3, 1, [0x9b, 0x00, 0xd4], 11);
+kb1_harness!(kb1_back_lit1_d12, 3, 1, [0x9b, 0x00, 0x34], 12);
+kb1_harness!(kb1_back_lit1_d13, 3, 1, [0x9b, 0x00, 0xb4], 13);
+kb1_harness!(kb1_back_lit1_d14, 3, 1, [0x9b, 0x00, 0x74], 14);
+kb1_harness!(kb1_back_lit1_d15, 3, 1, [0x9b, 0x00, 0xf4], 15);
+kb1_harness!(kb1_back_lit1_d16, 3, 1, [0x9b, 0x00, 0x0c], 16);
+kb1_harness!(kb1_back_lit1_d17, 3, 1, [0x9b, 0x00, 0x8c], 17);
+kb1_harness!(kb1_back_lit1_d18, 3, 1, [0x9b, 0x00, 0x4c], 18);
+kb1_harness!(kb1_back_lit1_d19, 3, 1, [0x9b, 0x00, 0xcc], 19);
+kb1_harness!(kb1_back_lit1_d20, 3, 1, [0x9b, 0x00, 0x2c], 20);
+kb1_harness!(kb1_back_lit1_d21, 3, 1, [0x9b, 0x00, 0xac], 21);
+kb1_harness!(kb1_back_lit1_d22, 3, 1, [0x9b, 0x00, 0x6c], 22);
+kb1_harness!(kb1_back_lit1_d23, 3, 1, [0x9b, 0x00, 0xec], 23);
+kb1_harness!(kb1_back_lit1_d24, 3, 1, [0x9b, 0x00, 0x1c], 24);
+kb1_harness!(kb1_back_lit1_d25, 3, 1, [0x9b, 0x00, 0x9c], 25);
+kb1_harness!(kb1_back_lit1_d26, 3, 1, [0x9b, 0x00, 0x5c], 26);
+kb1_harness!(kb1_back_lit1_d27, 3, 1, [0x9b, 0x00, 0xdc], 27);
+kb1_harness!(kb1_back_lit1_d28, 3, 1, [0x9b, 0x00, 0x3c], 28);
+kb1_harness!(kb1_back_lit1_d29, 3, 1, [0x9b, 0x00, 0xbc], 29);
+kb1_harness!(kb1_back_lit1_d30, 3, 1, [0x9b, 0x00, 0x7c], 30);
+kb1_harness!(kb1_back_lit1_d31, 3, 1, [0x9b, 0x00, 0xfc], 31);
+kb1_harness!(kb1_back_lit9_d0, 12, 9, [0x9b, 0x30, 0x71, 0xd2, 0xe4, 0x29, 0x53, 0xa7, 0x4d, 0x9f, 0x01, 0x04], 0);
+kb1_harness!(kb1_back_lit9_d1, 12, 9, [0x9b, 0x30, 0x71, 0xd2, 0xe4, 0x29, 0x53, 0xa7, 0x4d, 0x9f, 0x01, 0x84], 1);
+kb1_harness!(kb1_back_lit9_d2, 12, 9, [0x9b, 0x30, 0x71, 0xd2, 0xe4, 0x29, 0x53, 0xa7, 0x4d, 0x9f, 0x01, 0x44], 2);
+kb1_harness!(kb1_back_lit9_d3, 12, 9, [0x9b, 0x30, 0x71, 0xd2, 0xe4, 0x29, 0x53, 0xa7, 0x4d, 0x9f, 0x01, 0xc4], 3);
+kb1_harness!(kb1_back_lit9_d4, 12, 9, [0x9b, 0x30, 0x71, 0xd2, 0xe4, 0x29, 0x53, 0xa7, 0x4d, 0x9f, 0x01, 0x24], 4);
+kb1_harness!(kb1_back_lit9_d5, 12, 9, [0x9b, 0x30, 0x71, 0xd2, 0xe4, 0x29, 0x53, 0xa7, 0x4d, 0x9f, 0x01, 0xa4], 5);
+kb1_harness!(kb1_back_lit9_d6, 12, 9, [0x9b, 0x30, 0x71, 0xd2, 0xe4, 0x29, 0x53, 0xa7, 0x4d, 0x9f, 0x01, 0x64], 6);
+kb1_harness!(kb1_back_lit9_d7, 12, 9, [0x9b, 0x30, 0x71, 0xd2, 0xe4, 0x29, 0x53, 0xa7, 0x4d, 0x9f, 0x01, 0xe4], 7);
